@@ -1,5 +1,6 @@
 import HioModel.Store.Refine
 import HioModel.Store.Plain
+import HioModel.Store.Reach
 /-!
 # C24 — keyed durable stores match a dictionary model for all keys
 
@@ -17,7 +18,8 @@ pop / rem / cnt over `K`,
   overwrites a stored value; `getLast_fails_without_guard`: keys `a` and `a.b` suffice for `getLast`).  Proved for every
   history over a key set in which no key extends another key ++ separator (`SepFree`) — `io_refines_dict_partial`,
   `ioset_refines_dict_partial`, `other_key_unchanged_partial`.  The unguarded cases are known findings C24-K1 / C24-K2.
-* `getLast`, `getItemIter` and `cntAll` are carried by the correspondence only (not in the dictionary language here).
+* `getItemIter` and `cntAll` are carried by the correspondence only (not in the dictionary language here);
+  `getFirst` / `getLast` are in it (head / last of the list).
 * ordinals: a history may consume at most `16^32` ordinals (`totalWeight ops ≤ 16^W`); beyond that the code
   prints a longer suffix and the model raises `OrdinalOverflow`.
 -/
@@ -96,6 +98,18 @@ theorem other_key_unchanged_partial (K : Bytes → Prop) (hK : SepFree K) (hvk :
     (fun k0 h0 => by rw [hop] at h0; cases h0; exact hk) hfit
   rw [h1, observe_spec hK set h2 hk', observe_spec hK set hr hk', specIo_frame hspec hop hne]
 
+/-! ## unguarded: what holds for EVERY key set (also the F39 ones) -/
+
+/-- REACHABLE ⇒ WELL-FORMED: whatever history of IoSuber / IoSetSuber operations over whatever keys, the sub-db stays
+sorted with every key of the form `suffix k i`, `i < 16^32` (so the `int(…, 16)` corner of `unsuffix` that the model does
+not reproduce is unreachable). -/
+theorem reachable_inv (kind : Kind) (hkind : kind ≠ .plain) (watch : List Bytes) (ops : List Op) :
+    Inv (run kind watch [] ops).2 := (run_good hkind watch ops [] inv_nil).1
+
+/-- … and no operation of any history raises `ValueError` out of a scan loop. -/
+theorem reachable_no_valueError (kind : Kind) (hkind : kind ≠ .plain) (watch : List Bytes) (ops : List Op) :
+    ∀ x ∈ (run kind watch [] ops).1, x.1 ≠ .raise .valueError := (run_good hkind watch ops [] inv_nil).2
+
 /-! ## the guard is needed: F39 (replayed on the real code in `corpus()`) -/
 
 def kK : Bytes := [107]                       -- "k"
@@ -122,6 +136,10 @@ theorem refines_dict_fails_without_guard :
 theorem f39_keys_not_sepfree : ¬ SepFree (fun k => k = kK ∨ k = kK0) := by
   intro h
   exact h kK kK0 (Or.inl rfl) (Or.inr rfl) (by decide) (by decide +kernel)
+
+/-- getLast under the guard (partial): the last element of the dictionary's list -/
+theorem getLast_partial (db : Db) (hinv : Inv db) (k : Bytes) (hnc : NoChild k db) :
+    getIoValLast db k = .ok (absIo db k).getLast? := getIoValLast_spec hinv hnc
 
 /-- WITNESS (K2): with keys "a" and "a.b", `getLast "a"` answers None although "a" holds a value -/
 theorem getLast_fails_without_guard :
